@@ -25,7 +25,7 @@ inductive Compiled (σ : Store) : Expr → Code → Prop where
   | let1 (x : String) {v b : Expr} {cv cb : Code} :
       Compiled σ v cv → Compiled σ b cb → Compiled σ (.let1 x v b) (.let1 x cv cb)
   | call {r : Ref} {f : String} {args : List Expr} {cargs : List Code} :
-      RefOK σ r f → CompiledList σ args cargs → Compiled σ (.call f args) (.call r f cargs)
+      RefOK σ r (norm f) → CompiledList σ args cargs → Compiled σ (.call f args) (.call r f cargs)
 inductive CompiledList (σ : Store) : List Expr → List Code → Prop where
   | nil : CompiledList σ [] []
   | cons {a : Expr} {c : Code} {as : List Expr} {cs : List Code} :
@@ -86,7 +86,7 @@ theorem resolve_compiled (σ : Store) : ∀ e : Expr, Compiled σ e (resolve σ 
   | .let1 x v b => by simp only [resolve]; exact .let1 x (embed_compiled σ v) (embed_compiled σ b)
   | .call f args => by
       simp only [resolve]
-      exact .call (refOf_ok σ f) (resolveList_compiled σ args)
+      exact .call (refOf_ok σ (norm f)) (resolveList_compiled σ args)
 theorem resolveList_compiled (σ : Store) : ∀ es : List Expr, CompiledList σ es (resolveList σ es)
   | [] => by simp only [resolveList]; exact .nil
   | a :: as => by simp only [resolveList]; exact .cons (resolve_compiled σ a) (resolveList_compiled σ as)
@@ -106,7 +106,7 @@ theorem cacheAll_compiled (σ : Store) : ∀ {e : Expr} {c : Code}, Compiled σ 
       simp only [cacheAll]
       refine .call ?_ (cacheAllList_compiled σ hargs)
       cases r with
-      | late => exact refOf_ok σ f
+      | late => exact refOf_ok σ (norm f)
       | cell i => exact hr
 theorem cacheAllList_compiled (σ : Store) : ∀ {es : List Expr} {cs : List Code}, CompiledList σ es cs → CompiledList σ es (cacheAllList σ cs)
   | _, _, .nil => by simp only [cacheAllList]; exact .nil
@@ -158,7 +158,7 @@ structure WF (σ : Store) : Prop where
     the placeholder when `f` is undefined -/
 def CellMatches (σ : Store) (Φ : FunTable) (f : String) (i : Nat) : Prop :=
   match Φ.lookup f with
-  | some lam => ∃ caux cb, σ.cells[i]? = some (some ⟨lam.sig, caux, cb⟩) ∧
+  | some lam => ∃ caux cb, σ.cells[i]? = some (some ⟨lam.sig, caux, cb, lam.env⟩) ∧
       CompiledAux σ lam.aux caux ∧ Compiled σ lam.body cb
   | none => σ.cells[i]? = some none
 
@@ -192,29 +192,29 @@ theorem evalCode_eq_eval {Φ : FunTable} {σ : Store} (hrel : Rel Φ σ) :
       have hargs' : evalList (fun a => evalCode σ n env a) cargs = evalList (fun a => eval Φ n env a) args :=
         evalList_compiled (fun e c h => ih env h) hargs
       -- which cell does the call site reach?
-      cases htgt : σ.target r f with
+      cases htgt : σ.target r (norm f) with
       | none =>
         -- unresolved and the name has no cell: the name is undefined in the table as well
-        have hnone : σ.cellOf f = none := by
+        have hnone : σ.cellOf (norm f) = none := by
           cases r with
           | late => simpa [Store.target] using htgt
           | cell i => simp [Store.target] at htgt
-        cases hΦ : Φ.lookup f with
+        cases hΦ : Φ.lookup (norm f) with
         | none => rfl
         | some lam =>
-          obtain ⟨i, hi⟩ := hrel.defined f lam hΦ
+          obtain ⟨i, hi⟩ := hrel.defined (norm f) lam hΦ
           rw [hnone] at hi; cases hi
       | some i =>
-        have hcell : σ.cellOf f = some i := by
+        have hcell : σ.cellOf (norm f) = some i := by
           cases r with
           | late => simpa [Store.target] using htgt
           | cell j =>
             simp only [Store.target, Option.some.injEq] at htgt
             subst htgt
             exact hr j rfl
-        have hm := hrel.cells f i hcell
+        have hm := hrel.cells (norm f) i hcell
         unfold CellMatches at hm
-        cases hΦ : Φ.lookup f with
+        cases hΦ : Φ.lookup (norm f) with
         | none =>
           rw [hΦ] at hm
           simp [hm]
@@ -351,8 +351,8 @@ theorem compile_compiled (σ : Store) (e : Expr) : Compiled (compile σ e).2 e (
 theorem patch_rel {Φ : FunTable} {σ : Store} (hrel : Rel Φ σ) {f : String} {i : Nat}
     (hf : σ.cellOf f = some i) {lam : Lam} {caux : List (String × Code)} {cb : Code}
     (haux : CompiledAux σ lam.aux caux) (hcb : Compiled σ lam.body cb) :
-    Rel ((f, lam) :: Φ) ⟨σ.names, σ.cells.set i (some ⟨lam.sig, caux, cb⟩)⟩ := by
-  have hext : Ext σ ⟨σ.names, σ.cells.set i (some ⟨lam.sig, caux, cb⟩)⟩ := fun _ _ h => h
+    Rel ((f, lam) :: Φ) ⟨σ.names, σ.cells.set i (some ⟨lam.sig, caux, cb, lam.env⟩)⟩ := by
+  have hext : Ext σ ⟨σ.names, σ.cells.set i (some ⟨lam.sig, caux, cb, lam.env⟩)⟩ := fun _ _ h => h
   have hi := hrel.wf.bound f i hf
   refine ⟨⟨?_, ?_⟩, ?_, ?_⟩
   · intro g j hg
@@ -525,6 +525,12 @@ theorem eval_congr {Φ Φ' : FunTable} (h : ∀ f, Φ.lookup f = Φ'.lookup f) :
     intro env e
     cases e <;> simp only [eval, ih, h]
 
+theorem evalBinds_congr {α β : Type} {ev₁ : α → Out} {ev₂ : β → Out} (g : α → β) (h : ∀ a, ev₁ a = ev₂ (g a)) :
+    ∀ bs : List (String × α), evalBinds ev₁ bs = evalBinds ev₂ (bs.map (fun p => (p.1, g p.2)))
+  | [] => by simp [evalBinds]
+  | (x, a) :: rest => by
+      simp only [evalBinds, List.map_cons, h a, evalBinds_congr g h rest]
+
 theorem run_congr (fuel : Nat) : ∀ {Φ Φ' : FunTable}, (∀ f, Φ.lookup f = Φ'.lookup f) →
     ∀ (hist : List Expr) (forms : List Form), run fuel Φ hist forms = run fuel Φ' hist forms := by
   intro Φ Φ' h hist forms
@@ -532,35 +538,45 @@ theorem run_congr (fuel : Nat) : ∀ {Φ Φ' : FunTable}, (∀ f, Φ.lookup f = 
   | nil => simp [run]
   | cons form rest ih =>
     cases form with
-    | defun f lam =>
-      simp only [run]
-      rw [ih (Φ := (f, lam) :: Φ) (Φ' := (f, lam) :: Φ')]
-      intro g
-      simp only [List.lookup_cons, h g]
+    | defun f binds lam =>
+      have hb : evalBinds (fun e => eval Φ fuel [] e) binds = evalBinds (fun e => eval Φ' fuel [] e) binds := by
+        have := evalBinds_congr (ev₁ := fun e => eval Φ fuel [] e) (ev₂ := fun e => eval Φ' fuel [] e) id
+          (fun a => eval_congr h fuel [] a) binds
+        simpa using this
+      simp only [run, hb]
+      split
+      · next env _ =>
+        rw [ih (Φ := (norm f, { lam with env := env }) :: Φ) (Φ' := (norm f, { lam with env := env }) :: Φ')]
+        intro g
+        simp only [List.lookup_cons, h g]
+      · rw [ih h]
     | undef f =>
       simp only [run]
-      rw [ih (Φ := undefTable Φ f) (Φ' := undefTable Φ' f)]
+      rw [ih (Φ := undefTable Φ (norm f)) (Φ' := undefTable Φ' (norm f))]
       intro g
       simp only [lookup_undefTable, h g]
     | expr e => simp only [run, eval_congr h, ih h]
     | again j => simp only [run, eval_congr h, ih h]
 
+/-- the table entry of a top-level definition: the normalised name, no captured variables -/
+def defEntry (d : String × Lam) : String × Lam := (norm d.1, { d.2 with env := [] })
+
 /-- the table after the definitions `defs` were evaluated in order on top of `Φ₀` -/
-def addDefs (Φ₀ : FunTable) (defs : List (String × Lam)) : FunTable := defs.reverse ++ Φ₀
+def addDefs (Φ₀ : FunTable) (defs : List (String × Lam)) : FunTable := (defs.map defEntry).reverse ++ Φ₀
 
 theorem run_defs_aux (fuel : Nat) (toForm : String × Lam → Form)
-    (htf : ∀ d, toForm d = .defun d.1 d.2) :
+    (htf : ∀ d, toForm d = .defun d.1 [] d.2) :
     ∀ (defs : List (String × Lam)) (Φ₀ : FunTable) (hist : List Expr) (body : List Form),
     run fuel Φ₀ hist (defs.map toForm ++ body)
-      = defs.map (fun d => Out.val (.sym d.1)) ++ run fuel (addDefs Φ₀ defs) hist body := by
+      = defs.map (fun d => Out.val (.sym (norm d.1))) ++ run fuel (addDefs Φ₀ defs) hist body := by
   intro defs
   induction defs with
   | nil => intros; simp [addDefs]
   | cons d ds ih =>
     intro Φ₀ hist body
-    simp only [List.map_cons, List.cons_append, htf d, run]
+    simp only [List.map_cons, List.cons_append, htf d, run, evalBinds]
     rw [ih]
-    simp [addDefs]
+    simp [addDefs, defEntry]
 
 theorem lookup_perm {l₁ l₂ : List (String × Lam)} (hp : l₁.Perm l₂) (hnd : (l₁.map (·.1)).Nodup) (f : String) :
     l₁.lookup f = l₂.lookup f := by
@@ -586,12 +602,16 @@ theorem lookup_perm {l₁ l₂ : List (String × Lam)} (hp : l₁.Perm l₂) (hn
     rw [ih₁ hnd, ih₂ ((h₁.map (·.1)).nodup_iff.mp hnd)]
 
 theorem lookup_defs_perm {defs defs' : List (String × Lam)} (hp : defs.Perm defs')
-    (hnd : (defs.map (·.1)).Nodup) (Φ₀ : FunTable) (f : String) :
+    (hnd : (defs.map (fun d => norm d.1)).Nodup) (Φ₀ : FunTable) (f : String) :
     (addDefs Φ₀ defs).lookup f = (addDefs Φ₀ defs').lookup f := by
-  have hrev : defs.reverse.Perm defs'.reverse :=
-    (List.reverse_perm defs).trans (hp.trans (List.reverse_perm defs').symm)
-  have hnd' : (defs.reverse.map (·.1)).Nodup :=
-    (((List.reverse_perm defs).map (·.1)).nodup_iff).mpr hnd
+  have hp' : (defs.map defEntry).Perm (defs'.map defEntry) := hp.map defEntry
+  have hrev : (defs.map defEntry).reverse.Perm (defs'.map defEntry).reverse :=
+    (List.reverse_perm _).trans (hp'.trans (List.reverse_perm _).symm)
+  have hkeys : (defs.map defEntry).map (·.1) = defs.map (fun d => norm d.1) := by
+    simp [defEntry, List.map_map, Function.comp_def]
+  have hnd' : ((defs.map defEntry).reverse.map (·.1)).Nodup := by
+    refine (((List.reverse_perm (defs.map defEntry)).map (·.1)).nodup_iff).mpr ?_
+    rw [hkeys]; exact hnd
   simp only [addDefs, List.lookup_append, lookup_perm hrev hnd' f]
 
 end SlipVerif.Compile
